@@ -62,8 +62,12 @@ impl InferShapes for Slice {
                     && let Some(SymExpr::Value(step)) = step
                     && let SymExpr::Value(size) = dims[axis]
                 {
+                    // `i32::MAX` is used to mean "slice to the end of the
+                    // dimension". When stepping backwards the end is the
+                    // start of the dimension, and `i32::MAX` is clamped like
+                    // any other out of range index.
                     let end = match *end {
-                        i32::MAX => None,
+                        i32::MAX if *step > 0 => None,
                         end => Some(end as isize),
                     };
 
@@ -94,9 +98,15 @@ impl InferShapes for Slice {
                     && end.is_positive()
                     && step == Some(&SymExpr::Value(1))
                 {
-                    // nb. This assumes start <= end.
+                    // nb. If `start` or `end` are symbolic, this assumes start <= end.
                     let size = dims[axis].clone();
-                    dims[axis] = end.min(&size) - start.min(&size);
+                    dims[axis] = match (start, end) {
+                        // The slice is empty if the start is not before the end.
+                        (SymExpr::Value(start), SymExpr::Value(end)) if start >= end => {
+                            SymExpr::Value(0)
+                        }
+                        _ => end.min(&size) - start.min(&size),
+                    };
                 } else {
                     dims[axis] = sym_gen.gen_positive();
                 }
